@@ -346,9 +346,12 @@ impl Walrus {
                     mmap: mmap.clone(),
                 };
                 let mut in_block_off: u64 = 0;
-                // A block whose first entry is larger than DEFAULT_BLOCK_SIZE was allocated as
-                // a whole number of units (the allocator rounds the size up); scan that whole
-                // extent as one block instead of re-interpreting its payload as further blocks.
+                // A block that holds an entry larger than DEFAULT_BLOCK_SIZE was allocated as a
+                // whole number of units (the allocator rounds the size up). An entry that starts
+                // inside the extent known so far and ends beyond it can only live in such a
+                // block (a one-unit block rotates instead), so the extent grows to the unit
+                // boundary behind it and is scanned as one block instead of re-interpreting
+                // its payload as further blocks.
                 let mut block_limit: u64 = DEFAULT_BLOCK_SIZE;
                 loop {
                     // A header window that would run past the end of the file cannot hold
@@ -358,8 +361,9 @@ impl Walrus {
                     }
                     match block_stub.read(in_block_off) {
                         Ok((_entry, consumed)) => {
-                            if in_block_off == 0 && consumed as u64 > block_limit {
-                                block_limit = (consumed as u64).div_ceil(DEFAULT_BLOCK_SIZE)
+                            if in_block_off + consumed as u64 > block_limit {
+                                block_limit = (in_block_off + consumed as u64)
+                                    .div_ceil(DEFAULT_BLOCK_SIZE)
                                     * DEFAULT_BLOCK_SIZE;
                             }
                             used += consumed as u64;
